@@ -37,7 +37,7 @@ fn start() {
         return;
     }
     *st = true;
-    let limit: u64 = std::env::var("QMC_HANG_SECS").ok().and_then(|x| x.parse().ok()).unwrap_or(60);
+    let limit: u64 = std::env::var("QMC_HANG_SECS").ok().and_then(|x| x.parse().ok()).unwrap_or(240);
     std::thread::spawn(move || loop {
         std::thread::sleep(std::time::Duration::from_secs(1));
         let s = SLOTS.lock().unwrap();
